@@ -103,15 +103,24 @@ def observe(case, variant=0):
             out = mk(PAA, dict(num_intervals=p["k"]), dict(num_intervals=1)).fit_transform(Xn)
         elif op == "intervals":
             from sktime.transformations.panel.segment import IntervalSegmenter
-            out = mk(IntervalSegmenter, dict(intervals=p["k"]), dict(intervals=1)).fit_transform(Xn)
+            if variant % 2:
+                # the same intervals given explicitly as [start, end) pairs
+                iv = np.array([[ix[0], ix[-1] + 1] for ix in np.array_split(np.arange(len(X[0][0])), p["k"])])
+                out = mk(IntervalSegmenter, dict(intervals=iv), dict(intervals=1)).fit_transform(Xn)
+            else:
+                out = mk(IntervalSegmenter, dict(intervals=p["k"]), dict(intervals=1)).fit_transform(Xn)
         elif op == "sliding":
             from sktime.transformations.panel.segment import SlidingWindowSegmenter
             out = mk(SlidingWindowSegmenter, dict(window_length=p["w"]), dict(window_length=7)).fit_transform(Xn)
         elif op == "row_mean":
             from sktime.transformations.panel.compose import SeriesToPrimitivesRowTransformer
             from sklearn.preprocessing import FunctionTransformer
-            out = SeriesToPrimitivesRowTransformer(FunctionTransformer(np.mean, validate=False, kw_args={"axis": 0}),
-                                                   check_transformer=False).fit_transform(Xn)
+            if variant % 2:        # the library's own mean transformer, one value per variable
+                from sktime.transformations.series.summarize import MeanTransformer
+                out = SeriesToPrimitivesRowTransformer(MeanTransformer()).fit_transform(Xn)
+            else:
+                out = SeriesToPrimitivesRowTransformer(FunctionTransformer(np.mean, validate=False, kw_args={"axis": 0}),
+                                                       check_transformer=False).fit_transform(Xn)
             a = np.asarray(out, dtype=float)
             return [[[rational(float(v)) or []] for v in row] for row in a]
         elif op == "interval_features":
